@@ -58,6 +58,20 @@ func genC02(tier string, r *rng, emit func(string)) {
 			}
 		}
 	}
+	// (1b) Narrow, package-level and method form, every axis / start / length of small shapes
+	for _, sh := range [][]int{{4}, {3, 4}, {2, 3, 2}} {
+		for _, order := range []string{"rm", "cm"} {
+			for dim := range sh {
+				for st := 0; st <= sh[dim]; st++ {
+					for ln := 0; st+ln <= sh[dim]+1; ln++ {
+						for _, form := range []string{"api", "method"} {
+							emit(fmt.Sprintf("prog f64 new:%s:%s:0;narrow:0:%d:%d:%d:%s;mat:1", order, fints(sh), dim, st, ln, form))
+						}
+					}
+				}
+			}
+		}
+	}
 	// (2) random slice lists on every source layout, rank 1-4, element types rotated
 	n := 9000
 	if thorough {
